@@ -136,8 +136,15 @@ def gen_plan(prop, tier, rng, i):
     model_idx = []
     nwrites = rng.randrange(3, 13 if prop != "C20" else 9)
     nreaders = 1
-    ops.append({"op": "newreader"})
     with_rf = prop == "C20" and rng.random() < 0.7
+    late_md = with_rf and rng.random() < 0.3
+    if late_md:
+        # the RF channel exists (and an RF reader has been asked for its metadata) BEFORE the metadata directory and
+        # its writer are created; that long-lived RF reader must report what is written afterwards
+        ops.append({"op": "rfw", "len": rng.choice([5, 40])})
+        ops.append({"op": "rfold"})
+        ops.append({"op": "mopen"})
+    ops.append({"op": "newreader"})
     if with_rf and rng.random() < 0.5:
         ops.append({"op": "rfw", "len": rng.choice([5, 40])})
         for _ in range(rng.randrange(1, 3)):
@@ -207,7 +214,8 @@ def gen_plan(prop, tier, rng, i):
         ops.append(_gen_query(rng, cfg, model_idx, nreaders, fields, with_rf))
     plan = {"engine": "mdsim", "md": cfg.to_json(), "ops": ops, "readdir_seed": rng.randrange(2**32), "fields": fields,
             # local time zone of the process that writes and reads (names and times of the format are UTC whatever it is)
-            "proc_tz": rng.choice([None, None, None, "XYZ-05:30", "ABC+08", "EST5EDT,M3.2.0,M11.1.0"])}
+            "proc_tz": rng.choice([None, None, None, "XYZ-05:30", "ABC+08", "EST5EDT,M3.2.0,M11.1.0"]),
+            "late_md": late_md}
     if with_rf:
         rcfg = M.gen_cfg(rng, {"maxcap": 100, "p_continuous": 0.5, "p_filters": 0.2})
         t = 0
@@ -328,7 +336,7 @@ def run_plan(prop, plan):
     tree = os.path.join(sc, "tree")
     chdir = os.path.join(tree, "ch0")
     mdir = os.path.join(chdir, "metadata")
-    os.makedirs(mdir)
+    os.makedirs(chdir if plan.get("late_md") else mdir)
     clock = Clock()
     old_tz = os.environ.get("TZ")
     if plan.get("proc_tz"):
@@ -415,11 +423,24 @@ def run_plan(prop, plan):
 
     burnt = set()
     try:
-        writer = open_writer()
+        writer = None if plan.get("late_md") else open_writer()
         for oi, op in enumerate(plan["ops"]):
             o = op["op"]
             res.trace.add(oi, o)
-            if o == "mw":
+            if o == "mopen":
+                os.makedirs(mdir, exist_ok=True)
+                writer = open_writer()
+                res.probe("metadata_channel_created_after_rf_reader")
+            elif o == "rfold":
+                if rf["cfg"] and rf["model"] and rf["model"].segs:
+                    rd_, exc_ = readonly("construct DigitalRFReader", lambda: digital_rf.DigitalRFReader(tree))
+                    if exc_ is None:
+                        rf["old_reader"] = rd_
+                        res.probe("rf_reader_created_before_metadata_channel")
+                        lo_, hi_ = rf["model"].bounds_written()
+                        readonly("DigitalRFReader.read_metadata", lambda: rd_.read_metadata(lo_, hi_, rf["cfg"].channel, method=None))
+                        readonly("DigitalRFReader.get_digital_metadata", lambda: rd_.get_digital_metadata(rf["cfg"].channel))
+            elif o == "mw":
                 vals = MD.make_value(op["data"]) if not isinstance(op["data"], list) else [MD.make_value(x) for x in op["data"]]
                 idxs = op["samples"]
                 if op["form"] == "single":
@@ -449,6 +470,20 @@ def run_plan(prop, plan):
                     res.probe("md_sample_on_file_boundary")
                 res.stat("md_samples", len(idxs))
                 check_after_write(idxs)
+                if rf.get("old_reader") is not None and not burnt:
+                    # the RF reader created before the metadata channel existed
+                    res.probe("early_rf_reader_asked_after_metadata_write")
+                    for k_ in idxs[:2]:
+                        out_, exc_ = readonly("DigitalRFReader.read_metadata", lambda: rf["old_reader"].read_metadata(
+                            k_, k_, rf["cfg"].channel, method=None))
+                        # (read_metadata always adds an entry with the channel's inherent properties at the start
+                        #  index, so presence of the key alone proves nothing: the written fields must be there)
+                        got_ = {int(x_): y_ for x_, y_ in (out_ or {}).items()}
+                        if exc_ is not None or k_ not in got_ or not set(model.samples[k_]) <= set(got_[k_]):
+                            v("C20", "write_not_visible_to_rf_reader", "[RF reader created before the metadata channel] "
+                              "read_metadata(%d,%d) does not return the sample just written (%s)" % (
+                                  k_, k_, exc_ if exc_ else {x_: sorted(y_)[:6] for x_, y_ in list(got_.items())[:2]}))
+                            break
             elif o == "mw_dup":
                 k = op["sample"]
                 before = None
